@@ -41,7 +41,7 @@ struct Ev {
   long long id = -1, req = -1, n = -1, len = -1, trunc = -2;
   uint64_t rx = 0, rw = 0;      // raw addresses (0 = none)
   std::string r, kind, policy;
-  bool nonnull = true, alias = true, intact = true, mapped = true, filled = true, same = true, init = true;
+  bool nonnull = true, alias = true, intact = true, mapped = true, filled = true, same = true, init = true, wiped = true;
   long long cnt = 0, used = 0, res = 0, blk = 0;
   bool has_st = false;
   Opts o;
@@ -271,6 +271,14 @@ struct Exec {
   void do_reset(bool hard) {
     Ev e; e.e = "ResetAlloc"; e.policy = hard ? "hard" : "soft";
     alloc->reset(hard ? ResetPolicy::kHard : ResetPolicy::kSoft);
+    // every span is released by a reset: whatever part of a formerly live span is still mapped (the block kept by a
+    // soft reset) must carry the fill pattern.  Checked before anything else can map memory (single-threaded harness,
+    // no allocation between the reset and this loop), so "still mapped" means "still the allocator's mapping".
+    e.wiped = true;
+    for (auto& s : live) {
+      void* rw = s.span.rw(); size_t len = s.span.size();
+      if (is_mapped(rw, len) && !is_filled(rw, 0, len)) e.wiped = false;
+    }
     live.clear(); stale.clear();
     e.init = alloc->is_initialized();
     stats(e);
@@ -307,7 +315,7 @@ struct Exec {
       if (e.n >= 0) w.kv("n", e.n);
       if (e.trunc != -2) w.kv("trunc", e.trunc);
       if (!e.kind.empty()) w.kv("kind", e.kind);
-      if (!e.policy.empty()) { w.kv("policy", e.policy); w.kv("init", e.init); }
+      if (!e.policy.empty()) { w.kv("policy", e.policy); w.kv("init", e.init); w.kv("wiped", e.wiped); }
       if (!e.r.empty()) w.kv("r", e.r);
       if (e.e == "Alloc" || e.e == "Shrink" || e.e == "Write" || (e.e == "Query" && (e.kind == "live" || e.kind == "interior"))) {
         w.kv("rx", norm(e.rx)).kv("rw", norm(e.rw)).kv("len", e.len);
@@ -357,6 +365,17 @@ static size_t random_size(vj::Rng& r, const Opts& o) {
 
 static void run_random(Exec& ex, vj::Rng& r, unsigned ops) {
   size_t last_released_req = 0;
+  if (r.chance(1, 3)) {
+    // boundary prologue: the pool's first block is created by an allocation that fills it exactly (k base blocks minus
+    // the initial padding granule), optionally followed by a few small allocations (which open a second block), then a
+    // soft or hard reset and a small allocation - the reset has to account for a block that never had a free granule.
+    size_t k = 1 + r.below(4);
+    ex.do_alloc(size_t(ex.o.block) * k - (ex.o.nopad ? 0 : ex.o.gran));
+    for (unsigned j = (unsigned)r.below(3); j > 0; j--) ex.do_alloc(random_size(r, ex.o) % (4 * ex.o.gran) + 1);
+    if (r.chance(1, 3) && !ex.live.empty()) ex.do_release(0);
+    ex.do_reset(r.chance(1, 4));
+    ex.do_alloc(ex.o.gran * (1 + r.below(4)));
+  }
   for (unsigned i = 0; i < ops; i++) {
     unsigned c = (unsigned)r.below(100);
     size_t nlive = ex.live.size();
